@@ -51,7 +51,9 @@ class Evaluator(Run):
                 return ref
             if not self.feasible(z3.Not(flag)):
                 return mk_none()
-            raise EngineError("nullable reference not resolved on this path (spec) at %s" % label)
+            # undecided on this path: clauses guard such uses with `x is not None and ...`; the logic is
+            # total, so the reference stands for the guarded case
+            return ref
         return mk_none() if self.decide(flag, label + "?none") else ref
 
     def ev_Attribute(self, node, frame):
@@ -323,7 +325,23 @@ class Evaluator(Run):
     def ev_Lambda(self, node, frame):
         return const(Closure(node, frame))
 
+    def _raw_nullable(self, n, frame):
+        """the unresolved nullable value a Name denotes, if any (for `x is None` in clauses)"""
+        if not isinstance(n, ast.Name):
+            return None
+        v = frame.lookup(n.id) if frame is not None else None
+        if v is None and self.spec_env is not None:
+            v = self.spec_env.get(n.id)
+        if v is None or v is UNDEFINED:
+            return None
+        return v if v.t.kind == "nullable" else None
+
     def ev_Compare(self, node, frame):
+        if self.pure and len(node.ops) == 1 and isinstance(node.ops[0], (ast.Is, ast.IsNot)) \
+                and isinstance(node.comparators[0], ast.Constant) and node.comparators[0].value is None:
+            nv = self._raw_nullable(node.left, frame)
+            if nv is not None:
+                return mk_bool(nv.z[0] if isinstance(node.ops[0], ast.Is) else z3.Not(nv.z[0]))
         left = self.ev(node.left, frame)
         conds = []
         for op, rn in zip(node.ops, node.comparators):
@@ -623,6 +641,9 @@ class Evaluator(Run):
 
     # ================================================================== calls
     def ev_Call(self, node, frame):
+        if self.pure and isinstance(node.func, ast.Name) and node.func.id in ("old", "old_ref", "at", "pre", "forall", "exists", "implies", "log", "cnt"):
+            # clause-language forms win over program variables of the same name (`old = {}` in Env.swap)
+            return getattr(self, "special_" + node.func.id)(node, frame)
         fn = self.ev(node.func, frame)
         # spec-only special forms that must see unevaluated arguments
         if fn.is_const and isinstance(fn.z, DottedName):
@@ -853,6 +874,9 @@ class Evaluator(Run):
 
     def special_exists_str(self, node, frame):
         return self._quant(node, frame, False, T.Str)
+
+    def special_forall_val(self, node, frame):
+        return self._quant(node, frame, True, T.Opaque("val"))
 
     def special_forall_strset(self, node, frame):
         return self._quant(node, frame, True, T.VSet(T.Str))
@@ -1591,6 +1615,10 @@ class Evaluator(Run):
             v = self.spec_eval_in_frame(e, frame, {})
             if v.t.heap:
                 locs |= self.reachable(v)
+        for e in spec.get("havoc_shallow", []):
+            v = self.spec_eval_in_frame(e, frame, {})
+            if v.t.heap:
+                locs.add(v.z)  # this object's own data fields only, not what it refers to
         if is_for:
             for sl in it.src_locs:
                 if sl in locs and not spec.get("mutates_iterated", False):
